@@ -4,7 +4,8 @@ import SLModel.Core.DocValidate
 6d0f8bf (kept so that the original defects stay documented by kernel-checked witnesses in
 `Props/C15`; the driver runs it on request: `"legacy": true`).
 
-Differences from `Core/DocValidate`: unknown top-level names were ignored; `NestedField::validate`
+(The add-time check between those repairs and 8c4f4e4 — no docstore cap — is `SL.Doc.validateDoc`
+itself.)  Differences from `Core/DocValidate`: unknown top-level names were ignored; `NestedField::validate`
 recursed into arrays inside arrays; a nested leaf property only had to be "string or array" resp.
 "number or array" (`leafPropOk`: array elements and integrality were not looked at).
 -/
